@@ -390,14 +390,20 @@ func Path2ContainsPath1(path1, path2 Path64) bool {
 	// every vertex of path1 is on (or within rounding of) path2's boundary, so
 	// let the midpoints of path1's edges vote: edges shared with path2 abstain,
 	// the others lie on the side of path2 that path1 is on
+	// (in doubled coordinates, where the midpoints are exact: a truncated midpoint
+	// of a shared edge would vote for whichever side it was pushed to)
+	path2x2 := make(Path64, len(path2))
+	for i, pt := range path2 {
+		path2x2[i] = Point64{X: 2 * pt.X, Y: 2 * pt.Y}
+	}
 	votes := 0
 	var prevPt Point64
 	if len(path1) > 0 {
 		prevPt = path1[len(path1)-1]
 	}
 	for _, pt := range path1 {
-		mid := Point64{X: prevPt.X + (pt.X-prevPt.X)/2, Y: prevPt.Y + (pt.Y-prevPt.Y)/2}
-		switch PointInPolygon(mid, path2) {
+		mid := Point64{X: prevPt.X + pt.X, Y: prevPt.Y + pt.Y}
+		switch PointInPolygon(mid, path2x2) {
 		case IsInside:
 			votes++
 		case IsOutside:
